@@ -212,11 +212,11 @@ SPECS["C02"] = node_spec(
 
 SPECS["C06"] = node_spec(
     "C06", ["result", "rawnode"], "persist_before_send",
-    "Props/C06.v: in every execution of the abstract election protocol a node grants at most one candidate its vote in any term, ever (across crashes and restarts); every released vote grant, vote request and leader message is covered by the sender's durable (term, vote) and by its volatile state, so a restart from stable storage is never behind what it told others; within an incarnation the term never decreases." + P_NOTE + " The Ready-level release discipline (which messages a Ready holds back until persistence) is tied by the pointwise differential on Ready contents and RawNode bookkeeping.",
-    "append acknowledgements and the log part of 'never behind' need the log layer of P and are not yet proved.",
+    "Props/C06.v: in every execution of the abstract election protocol a node grants at most one candidate its vote in any term, ever (across crashes and restarts); every released vote grant, vote request and leader message is covered by the sender's durable (term, vote) and by its volatile state, so a restart from stable storage is never behind what it told others; within an incarnation the term never decreases; an append acknowledgement is recorded as released only while the node's durable log covers it with the entries of that term's leader, and a crash falls back to exactly the durable log." + P_NOTE + PL_NOTE + " The Ready-level release discipline (which messages a Ready holds back until persistence) is tied by the pointwise differential on Ready contents and RawNode bookkeeping.",
+    "fixed voter configuration within an execution; an acknowledged but uncommitted suffix may later be replaced by a newer leader's entries (that is Raft, not a lost promise).",
     "DESIGN.md section 7, C06; section 2.2-2.3",
     "Theorems: Props/C06.v over P/Election.v. Ties: (B) acceptor on P-level traces; (A) pointwise differential on Ready contents, records, hard state.",
-    acceptor="pelection")
+    acceptor="plog")
 
 SPECS["C15"] = node_spec(
     "C15", ["log", "conf", "progress", "msgs.repl", "msgs.resp"], "snapshot",
